@@ -42,31 +42,31 @@ def r1_who_constructs(rule, root=None):
 
 
 def r2_flatten(rule, root=None):
+    """remap_affine builds exactly two RemapAffine values: for an already-affine tree (whatever construct
+    takes it apart) { target: inner target, mat: existing * new }, otherwise { target: self, mat: new }"""
     fn = A.find_fn(TREE, "remap_affine", self_ty="Tree", root=root)
-    ms = list(A.find(fn["body"], "Match"))
-    ok = False
-    if len(ms) == 1:
-        for arm in ms[0]["arms"]:
-            pt = A.ftxt(arm["pat"])
-            if pt.startswith("TreeOp::RemapAffine{"):
-                names = {f["name"]: A.binding_name(f["pat"]) for f in arm["pat"]["fields"]}
-                st = A.strip(arm["body"])
-                if st.get("k") == "Struct":
-                    f = {x["name"]: A.ftxt(x["e"]) for x in st["fields"]}
-                    inner = names.get("mat")
-                    param = [A.binding_name(i["pat"]) for i in fn["sig"]["inputs"] if "pat" in i][0]
-                    if f.get("target") == "%s.clone()" % names.get("target") and f.get("mat") == "(%s*%s)" % (inner, param):
-                        ok = True
-                    else:
-                        rule.bad("flatten", "remap_affine flattens to `mat: %s`, target `%s`; the existing (inner) matrix must be applied after the new one: `%s * %s` on the inner target" % (f.get("mat"), f.get("target"), inner, param), A.where(fn, arm))
-                        return
-    if ok:
-        rule.ok("remap_affine flattens onto the inner target with `existing * new`", file=TREE, line=fn["ln"])
-    else:
+    param = [A.binding_name(i["pat"]) for i in fn["sig"]["inputs"] if isinstance(i, dict) and "pat" in i][0]
+    lits = [s_ for s_ in A.find(fn["body"], "Struct") if (A.path_segs(s_["path"]) or [])[-2:] == ["TreeOp", "RemapAffine"]]
+    flat = wrap = None
+    for st in lits:
+        f = {x["name"]: str(A.ftxt(x["e"])) for x in st["fields"]}
+        ctx = [(p, scr) for (p, scr) in (A.enclosing_patterns(fn["body"], st) or []) if p.get("k") == "PStruct" and (A.path_segs(p["path"]) or [])[-2:] == ["TreeOp", "RemapAffine"]]
+        if ctx:
+            names = A.struct_pat_bindings(ctx[-1][0])
+            scr = str(A.ftxt(ctx[-1][1]))
+            flat = (f, names, scr, st)
+        else:
+            wrap = (f, st)
+    if flat is None:
         rule.bad("flatten|shape", "remap_affine no longer has a flattening arm for an already-affine tree", A.where(fn))
-    # the non-affine arm wraps self
-    t = A.ftxt(fn["body"])
-    if "_=>TreeOp::RemapAffine{target:self.0.clone(),mat:mat}" in t:
+    else:
+        f, names, scr, st = flat
+        inner = names.get("mat")
+        if scr in ("&*self.0", "self.0.as_ref()", "&**self", "&self.0") and f.get("target") == "%s.clone()" % names.get("target") and f.get("mat") == "(%s*%s)" % (inner, param):
+            rule.ok("remap_affine flattens onto the inner target with `existing * new`", file=TREE, line=fn["ln"])
+        else:
+            rule.bad("flatten", "remap_affine flattens to `mat: %s`, target `%s`; the existing (inner) matrix must be applied after the new one: `%s * %s` on the inner target" % (f.get("mat"), f.get("target"), inner, param), A.where(fn, st))
+    if wrap is not None and wrap[0] == {"target": "self.0.clone()", "mat": param}:
         rule.ok("a non-affine tree is wrapped with the given matrix")
     else:
         rule.bad("wrap", "remap_affine must wrap a non-affine tree as RemapAffine { target: self, mat }", A.where(fn))
@@ -83,28 +83,39 @@ def _import(root=None):
     return A.find_fn(CTX, "import", self_ty="Context", root=root)
 
 
+def frame_stacks(fn):
+    """(name of the axis-frame stack, name of the pending-affine stack) in Context::import, taken from
+    what the Pop / PopAffine actions pop (whatever the locals are called)"""
+    t = A.ftxt(fn["body"])
+    a = t.fmatch("Action::Pop=>{$A.pop().unwrap();}")
+    b = t.fmatch("Action::PopAffine=>{$B.pop().unwrap();}")
+    if a is None or b is None or a["$A"] == b["$B"]:
+        raise A.AnchorLost("the `Action::Pop => axes.pop()` / `Action::PopAffine => affine.pop()` arms of Context::import")
+    return a["$A"], b["$B"]
+
+
 def r3_frames(rule, root=None):
     fn = _import(root)
-    # every axes.push is followed (same block) by todo.push(Action::Pop) and then Down(target)
-    blocks = [b for b in A.find(fn["body"], "Block")]
+    axes_n, affine_n = frame_stacks(fn)
+    rule.ok("Pop / PopAffine pop their own stacks (`%s`, `%s`)" % (axes_n, affine_n))
+    # every frame push is paired, in the same block, with the queued action that pops it, and that action is
+    # queued before Down(target) (the work list is a stack: queued earlier = runs later).  The relative order of
+    # the frame push and the work-list pushes is irrelevant (different vectors).
     n_push = 0
-    for b in blocks:
-        seq = [A.ftxt(s) for s in b["stmts"]]
+    for b in A.find(fn["body"], "Block"):
+        seq = [str(A.ftxt(s)) for s in b["stmts"]]
         for i, t in enumerate(seq):
-            for vec, pop in (("axes", "Action::Pop"), ("affine", "Action::PopAffine")):
+            for vec, pop in ((axes_n, "Action::Pop"), (affine_n, "Action::PopAffine")):
                 if t.startswith("%s.push(" % vec):
                     n_push += 1
-                    rest = seq[i + 1:]
                     want = "todo.push(%s);" % pop
-                    if want not in rest:
-                        rule.bad("frames|%s|unpaired" % vec, "`%s` is not paired with `%s` in the same block: the frame would leak into sibling subtrees" % (t[:30], want), A.where(fn, b["stmts"][i]))
+                    if want not in seq:
+                        rule.bad("frames|%s|unpaired" % ("axes" if vec == axes_n else "affine"), "`%s` is not paired with `%s` in the same block: the frame would leak into sibling subtrees" % (t[:30], want), A.where(fn, b["stmts"][i]))
                         continue
-                    # Down(target) must be pushed after the Pop (so that it runs before it)
-                    outer = seq if "todo.push(Action::Down(target));" in seq else None
-                    j = rest.index(want)
-                    downs = [k for k, x in enumerate(rest) if x == "todo.push(Action::Down(target));"]
+                    j = seq.index(want)
+                    downs = [k for k, x in enumerate(seq) if x == "todo.push(Action::Down(target));"]
                     if downs and downs[0] < j:
-                        rule.bad("frames|%s|order" % vec, "Action::Down(target) is pushed before %s: the frame would be popped before the target is imported" % pop, A.where(fn, b["stmts"][i]))
+                        rule.bad("frames|%s|order" % ("axes" if vec == axes_n else "affine"), "Action::Down(target) is pushed before %s: the frame would be popped before the target is imported" % pop, A.where(fn, b["stmts"][i]))
                     else:
                         rule.ok("%s.push paired with %s pushed before Down(target)" % (vec, pop), file=CTX, line=b["stmts"][i]["ln"])
     if n_push < 3:
@@ -120,7 +131,7 @@ def r3_frames(rule, root=None):
             else:
                 rule.bad("frames|affine-target", "the RemapAffine arm must push Down(target) last", A.where(fn, arm))
     # the matrix may be deferred onto the affine stack only when the target is itself an affine remap
-    defer = [i for i in A.find(fn["body"], "If") if any("affine.push(" in A.ftxt(s) for s in i["then"]["stmts"])]
+    defer = [i for i in A.find(fn["body"], "If") if any(str(A.ftxt(s)).startswith("%s.push(" % affine_n) for s in i["then"]["stmts"])]
     if len(defer) != 1:
         rule.lost("the `if matches!(target, RemapAffine)` deferral in Context::import")
     else:
@@ -131,15 +142,11 @@ def r3_frames(rule, root=None):
                 segs, _ = A.pat_variant(p)
                 vs.add(segs[-1] if segs else "?")
         scr = A.ftxt(c.get("expr")) if c.get("k") == "Macro" else ""
-        if vs == {"RemapAffine"} and scr == "&**target" and not c.get("guard"):
+        if vs == {"RemapAffine"} and scr in ("&**target", "target.as_ref()") and not c.get("guard"):
             rule.ok("a pending matrix is deferred only onto a directly nested affine remap", file=CTX, line=defer[0]["ln"])
         else:
             rule.bad("frames|defer", "the pending affine matrix is deferred when the target matches %s; only a directly nested RemapAffine composes with it - any other node must see the matrix as a frame first" % sorted(vs), A.where(fn, defer[0]))
-    if "Action::Pop=>{axes.pop().unwrap();}" in t and "Action::PopAffine=>{affine.pop().unwrap();}" in t:
-        rule.ok("Pop / PopAffine pop their own stacks")
-    else:
-        rule.bad("frames|pop", "Action::Pop must pop `axes` and Action::PopAffine must pop `affine`", A.where(fn))
-    if "letmutaxes=vec!((self.x(),self.y(),self.z()));" in t:
+    if t.fmatch("letmut%s=vec!((self.x(),self.y(),self.z()));" % axes_n) is not None:
         rule.ok("the root frame is (x, y, z)")
     else:
         rule.bad("frames|root", "the importer's root frame must be (self.x(), self.y(), self.z())", A.where(fn))
@@ -147,7 +154,8 @@ def r3_frames(rule, root=None):
 
 def r4_cache_keys(rule, root=None):
     fn = _import(root)
-    key = "(*axes.last().unwrap(),Arc::as_ptr(t))"
+    axes_n, _aff = frame_stacks(fn)
+    key = "(*%s.last().unwrap(),Arc::as_ptr(t))" % axes_n
     n = 0
     for c in A.find(fn["body"], "MethodCall"):
         if A.ident(A.strip(c["recv"])) == "seen" and c["method"] in ("get", "insert", "entry", "contains_key"):
@@ -189,68 +197,118 @@ def r5_axis_roles(rule, root=None):
                     rule.bad("axis|V", "free variables must be imported as themselves (`self.var(v)`), found `%s`" % tt, A.where(fn, arm))
         scr = A.ftxt(ms[0]["e"])
     t = A.ftxt(fn["body"])
-    if "letaxes=axes.last().unwrap();" in t:
+    axes_n, _aff = frame_stacks(fn)
+    if t.fmatch("let$L=%s.last().unwrap();" % axes_n) is not None:
         rule.ok("inputs read the innermost frame")
     else:
         rule.bad("axis|frame", "TreeOp::Input must read `axes.last()`", A.where(fn))
-    # RemapAxes: pops x, y, z and pushes (x, y, z)
-    if "letx=stack.pop().unwrap();lety=stack.pop().unwrap();letz=stack.pop().unwrap();axes.push((x,y,z));" in t:
+    # RemapAxes: pops x, y, z (in that order: the work list ran z, y, x last-to-first) and pushes (x, y, z)
+    ok_axes = False
+    for arm in A.find(fn["body"], "Arm"):
+        if str(A.ftxt(arm["pat"])).startswith("TreeOp::RemapAxes{target") and "stack.pop()" in A.unparse(arm["body"]):
+            pops = [A.binding_name(s_["pat"]) for s_ in A.stmts_of(arm["body"]) if s_.get("k") == "Let" and str(A.ftxt(s_.get("init") or {})) == "stack.pop().unwrap()"]
+            pushes = [str(A.ftxt(s_)) for s_ in A.stmts_of(arm["body"]) if str(A.ftxt(s_)).startswith("%s.push(" % axes_n)]
+            if len(pops) == 3 and None not in pops and pushes == ["%s.push((%s,%s,%s));" % (axes_n, pops[0], pops[1], pops[2])]:
+                ok_axes = True
+    if ok_axes:
         rule.ok("RemapAxes: the new frame is (x, y, z) in that order")
     else:
         rule.bad("axis|remapaxes", "the RemapAxes frame must be built as (x, y, z) from the three popped results", A.where(fn))
-    # affine rows
-    loops = [l for l in A.find(fn["body"], "For") if "mat[" in A.unparse(l["body"])]
-    if len(loops) != 1 or A.ftxt(loops[0]["iter"]) != "0..3":
+    # affine rows: in the non-deferred branch, (X, Y, Z) = current frame; new axis i =
+    # m[i,0] X + m[i,1] Y + m[i,2] Z + m[i,3] for i = 0, 1, 2; the new frame is those three in order
+    loops = [l for l in A.find(fn["body"], "For") if str(A.ftxt(l["iter"])) == "0..3" and "out[" in A.unparse(l["body"])]
+    if len(loops) != 1:
         rule.lost("`for i in 0..3` affine row loop in Context::import")
-    else:
-        ivar = A.binding_name(loops[0]["pat"])
-        env = S.SymEnv()
-        for ax in ("x", "y", "z"):
-            env.vars[ax] = env.sym(ax)
+        return
+    loop = loops[0]
+    ivar = A.binding_name(loop["pat"])
+    blk = None
+    for b in A.find(fn["body"], "Block"):
+        if any(A.strip(A.stmt_expr(s_) or {}) is loop for s_ in b["stmts"]):
+            blk = b
+    bt = A.ftxt(blk) if blk is not None else A.ftxt(fn["body"])
+    m = bt.fmatch("let($X,$Y,$Z)=%s.last().unwrap();" % axes_n)
+    if m is None:
+        rule.bad("affine|frame", "the affine frame must be computed from the current frame's (x, y, z): `let (x, y, z) = %s.last().unwrap()`" % axes_n, A.where(fn, loop))
+        return
+    env = S.SymEnv()
+    for ax, meta in (("x", "$X"), ("y", "$Y"), ("z", "$Z")):
+        env.vars[m[meta]] = env.sym(ax)
 
-        def conv(e):
-            e = A.strip(e)
-            k = e.get("k")
-            if k == "Try":
-                return conv(e["e"])
-            if k == "MethodCall" and e["method"] == "unwrap":
-                return conv(e["recv"])
-            if k == "MethodCall" and A.ident(A.strip(e["recv"])) == "self" and e["method"] in ("mul", "add", "constant"):
-                a = [conv(x) for x in e["args"]]
-                return a[0] * a[1] if e["method"] == "mul" else (a[0] + a[1] if e["method"] == "add" else a[0])
-            if k == "Index" and A.ident(A.strip(e["e"])) == "mat":
-                tup = A.strip(e["index"])
-                r, c = [A.strip(x) for x in tup["elems"]]
-                if A.ident(r) != ivar:
-                    raise S.Untranslatable("row index %s" % A.unparse(r))
-                return env.sym("m%d" % A.lit_value(c))
-            if k == "Path" and len(e["segs"]) == 1:
-                n = e["segs"][0]
-                if n in env.vars:
-                    return env.vars[n]
-            raise S.Untranslatable(A.unparse(e)[:40])
+    def conv(e, env, iv, matn, depth=0):
+        e = A.strip(e)
+        k = e.get("k")
+        if k == "Try":
+            return conv(e["e"], env, iv, matn, depth)
+        if k == "MethodCall" and e["method"] == "unwrap":
+            return conv(e["recv"], env, iv, matn, depth)
+        if k == "MethodCall" and A.ident(A.strip(e["recv"])) == "self" and e["method"] in ("mul", "add", "constant"):
+            a = [conv(x, env, iv, matn, depth) for x in e["args"]]
+            return a[0] * a[1] if e["method"] == "mul" else (a[0] + a[1] if e["method"] == "add" else a[0])
+        if k == "MethodCall" and A.ident(A.strip(e["recv"])) == "self" and depth < 2:
+            # a private helper of Context: bind its parameters and read its body
+            callee = A._same_file_fn(fn, e["method"])
+            if callee is not None:
+                ins = [i_ for i_ in callee["sig"]["inputs"] if isinstance(i_, dict) and "pat" in i_]
+                if len(ins) == len(e["args"]):
+                    sub = env.copy()
+                    sub.vars = dict(env.vars)
+                    iv2, mat2 = iv, matn
+                    for i_, a in zip(ins, e["args"]):
+                        p = i_["pat"]
+                        a = A.strip(a)
+                        if p.get("k") == "PTuple" and a.get("k") == "Tuple":
+                            for pe, ae in zip(p["elems"], a["elems"]):
+                                sub.vars[A.binding_name(pe)] = conv(ae, env, iv, matn, depth)
+                        elif A.ident(a) == iv:
+                            iv2 = A.binding_name(p)
+                        elif A.ident(a) == matn:
+                            mat2 = A.binding_name(p)
+                        else:
+                            sub.vars[A.binding_name(p)] = conv(a, env, iv, matn, depth)
+                    tail = None
+                    for s_ in callee["body"]["stmts"]:
+                        if s_.get("k") == "Let":
+                            sub.vars[A.binding_name(s_["pat"])] = conv(s_["init"], sub, iv2, mat2, depth + 1)
+                        elif not s_.get("semi", True):
+                            tail = A.stmt_expr(s_)
+                    if tail is not None:
+                        return conv(tail, sub, iv2, mat2, depth + 1)
+            raise S.Untranslatable("method %s" % e["method"])
+        if k == "Index" and A.ident(A.strip(e["e"])) == matn:
+            tup = A.strip(e["index"])
+            r, c = [A.strip(x) for x in tup["elems"]]
+            if A.ident(r) != iv:
+                raise S.Untranslatable("row index %s" % A.unparse(r))
+            return env.sym("m%d" % A.lit_value(c))
+        if k == "Path" and len(e["segs"]) == 1:
+            n = e["segs"][0]
+            if n in env.vars:
+                return env.vars[n]
+        raise S.Untranslatable(A.unparse(e)[:40])
 
-        try:
-            out = None
-            for s in loops[0]["body"]["stmts"]:
-                if s.get("k") == "Let":
-                    env.vars[A.binding_name(s["pat"])] = conv(s["init"])
-                else:
-                    e = A.strip(A.stmt_expr(s))
-                    if e.get("k") == "Assign" and A.ftxt(e["left"]) == "out[%s]" % ivar:
-                        r = A.strip(e["right"])
-                        out = conv(r["args"][0]) if r.get("k") == "Call" and A.is_path(r["func"], "Some") else None
-            want = env.sym("m0") * env.sym("x") + env.sym("m1") * env.sym("y") + env.sym("m2") * env.sym("z") + env.sym("m3")
-            if out is not None and S.equal(out, want):
-                rule.ok("affine frame row i = m[i,0] x + m[i,1] y + m[i,2] z + m[i,3]", file=CTX, line=loops[0]["ln"])
+    try:
+        out = None
+        for s_ in loop["body"]["stmts"]:
+            if s_.get("k") == "Let":
+                env.vars[A.binding_name(s_["pat"])] = conv(s_["init"], env, ivar, "mat")
             else:
-                rule.bad("affine|row", "the affine frame's row is `%s`, expected m[i,0]*x + m[i,1]*y + m[i,2]*z + m[i,3]" % out, A.where(fn, loops[0]))
-        except (S.Untranslatable, KeyError, TypeError, IndexError) as e:
-            rule.bad("affine|row|shape", "affine row construction not understood (%s)" % e, A.where(fn, loops[0]))
-        if "let(x,y,z)=axes.last().unwrap();" in t and "let[x,y,z]=out.map(Option::unwrap);axes.push((x,y,z));" in t:
-            rule.ok("the affine frame is built from, and pushed as, (x, y, z) of the current frame")
+                e = A.strip(A.stmt_expr(s_))
+                if e.get("k") == "Assign" and A.ftxt(e["left"]) == "out[%s]" % ivar:
+                    r = A.strip(e["right"])
+                    out = conv(r["args"][0], env, ivar, "mat") if r.get("k") == "Call" and A.is_path(r["func"], "Some") else None
+        want = env.sym("m0") * env.sym("x") + env.sym("m1") * env.sym("y") + env.sym("m2") * env.sym("z") + env.sym("m3")
+        if out is not None and S.equal(out, want):
+            rule.ok("affine frame row i = m[i,0] x + m[i,1] y + m[i,2] z + m[i,3]", file=CTX, line=loop["ln"])
         else:
-            rule.bad("affine|frame", "the affine frame must be computed from the current frame's (x, y, z) and pushed as (x, y, z)", A.where(fn))
+            rule.bad("affine|row", "the affine frame's row is `%s`, expected m[i,0]*x + m[i,1]*y + m[i,2]*z + m[i,3]" % out, A.where(fn, loop))
+    except (S.Untranslatable, KeyError, TypeError, IndexError) as e:
+        rule.bad("affine|row|shape", "affine row construction not understood (%s)" % e, A.where(fn, loop))
+    m2 = bt.fmatch("let[$A,$B,$C]=out.map(Option::unwrap);")
+    if m2 is not None and bt.fmatch("%s.push(($A,$B,$C));" % axes_n, bind=m2) is not None:
+        rule.ok("the affine frame is built from, and pushed as, (x, y, z) of the current frame")
+    else:
+        rule.bad("affine|frame", "the affine frame must be computed from the current frame's (x, y, z) and pushed as (x, y, z)", A.where(fn))
 
 
 from .. import factrules as FR
